@@ -30,6 +30,16 @@ type variant struct {
 	Expect   string `json:"expect"` // substring of the expected report line ("" for neutral rewrites)
 	Neutral  bool   `json:"neutral"`
 	Note     string `json:"note,omitempty"`
+	// Edits: a multi-hunk / multi-file variant (seeded changes and refactorings
+	// produced by independent agents, converted from their patches); applied in order.
+	Edits []variantEdit `json:"edits,omitempty"`
+}
+
+type variantEdit struct {
+	File string `json:"file"`
+	Old  string `json:"old"`
+	New  string `json:"new"`
+	Occ  int    `json:"occ"`
 }
 
 type variantResult struct {
@@ -101,21 +111,32 @@ func init() {
 }
 
 func runVariant(self string, c *Ctx, v variant) variantResult {
-	src, err := os.ReadFile(filepath.Join(c.P.RepoDir, v.File))
-	if err != nil {
-		return variantResult{v.ID, "site-missing", err.Error()}
+	edits := v.Edits
+	if len(edits) == 0 {
+		edits = []variantEdit{{v.File, v.Old, v.New, v.Occ}}
 	}
-	parts := strings.Split(string(src), v.Old)
-	if len(parts)-1 <= v.Occ {
-		return variantResult{v.ID, "site-missing", "text not found"}
+	content := map[string]string{}
+	for _, e := range edits {
+		cur, ok := content[e.File]
+		if !ok {
+			src, err := os.ReadFile(filepath.Join(c.P.RepoDir, e.File))
+			if err != nil {
+				return variantResult{v.ID, "site-missing", err.Error()}
+			}
+			cur = string(src)
+		}
+		parts := strings.Split(cur, e.Old)
+		if e.Old == "" || len(parts)-1 <= e.Occ {
+			return variantResult{v.ID, "site-missing", "text not found in " + e.File}
+		}
+		content[e.File] = strings.Join(parts[:e.Occ+1], e.Old) + e.New + strings.Join(parts[e.Occ+1:], e.Old)
 	}
-	mut := strings.Join(parts[:v.Occ+1], v.Old) + v.New + strings.Join(parts[v.Occ+1:], v.Old)
 	tmp, err := os.MkdirTemp("", "glself_")
 	if err != nil {
 		return variantResult{v.ID, "error", err.Error()}
 	}
 	defer os.RemoveAll(tmp)
-	ov, _ := json.Marshal(map[string]string{v.File: mut})
+	ov, _ := json.Marshal(content)
 	ovPath := filepath.Join(tmp, "overlay.json")
 	os.WriteFile(ovPath, ov, 0o644)
 	if b, err := os.ReadFile(filepath.Join(verifDir(), "known_findings.json")); err == nil {
